@@ -252,13 +252,21 @@ def run(ctx):
         clock = [1000]
         trace = []
         self_keys = set()
+        self_since, reported_self = {}, set()
         for step in range(length):
             ev = random_event(rng, rb, clock)
             before_entries = {k: (p.ban_score, p.last_connection_attempt) for k, p in rb.nm.disconnected_peers.items()}
             apply_event(rb, ev, ops, impl)
             trace.append(str(ev))
+            for k_, n_ in self_since.items():
+                later = [a for a in rb.attempts[n_:] if a[0] == k_]
+                if later and k_ not in reported_self:
+                    reported_self.add(k_)
+                    res.violations.append({"kind": "an address recognised as the node's own was dialled again",
+                                           "address": key_str(k_), "at": later[0][1], "trace": trace[-10:]})
             if ev[0] == "hello" and ev[2] and ev[1][2] == OUTGOING:
                 self_keys.add(ev[1])
+                self_since.setdefault(ev[1], len(rb.attempts))
                 if ev[1] in rb.nm.connected_peers:
                     res.violations.append({"kind": "a connection to the node itself was not dropped", "trace": trace[-6:]})
             if ev[0] in ("peers", "hello", "incoming"):
